@@ -27,7 +27,9 @@ CONSTANTS K,             \* ticks per clock-skew allowance
           MaxT,          \* last instant explored
           Starts(_),     \* start instants offered for an offset
           Deltas(_, _),  \* Advance amounts offered at (offset, now)
-          RDeltas(_, _)  \* down-times offered to Restart at (offset, now)
+          RDeltas(_, _), \* down-times offered to Restart at (offset, now)
+          RestartForgetsLast  \* design variant (self-test only): a (re)started manager has lastConfig = nil, as
+                              \* before /repo commit aa4b128; it MUST violate LearnedSurvivesRestart
 
 V == VU * K
 W == V - 2 * K          \* validityMinusTwoSkew
@@ -61,10 +63,11 @@ Mk(l, c, n) == [last |-> l, cur |-> c, next |-> n,
                 timer |-> End(c) - K,           \* background(): currentConfig.End() - skew
                 adv |-> AdvOf(l, c, n), addr |-> AddrOf(c, n)]
 
-\* init(): the first certificate is the bucket containing now - skew; it is put into nextConfig and
-\* rollConfig is called once (lastConfig = currentConfig = nil before).
+\* init(): the bucket containing now - skew is put into nextConfig, the bucket before it (re-derived: certificates
+\* are deterministic) into currentConfig, and rollConfig is called once: last = previous bucket, cur = this
+\* bucket, next = the following one.
 InitMgr(o, t) == LET s0 == BucketStart(t - K, o)
-                 IN Mk(None, s0, End(s0) - 2 * K)   \* rollConfig: nextStart = nextConfig.End() - 2*skew
+                 IN Mk(IF RestartForgetsLast THEN None ELSE s0 - W, s0, End(s0) - 2 * K)
 
 \* rollConfig() from the timer goroutine; the timer is re-armed at the new current End - skew
 Roll(x) == Mk(x.cur, x.next, End(x.next) - 2 * K)
@@ -84,7 +87,7 @@ Pub(x) == [per |-> x.cur, hs |-> x.addr]
 Prune(h, c) == {e \in h : e.per >= c - 2 * W}
 
 Obs(x) == [nb |-> x.cur, na |-> End(x.cur), nextnb |-> x.next, adv |-> x.adv, addr |-> x.addr,
-           haslast |-> x.last # None]
+           haslast |-> x.last # None, lastnb |-> x.last]
 
 Blank == [last |-> None, cur |-> 0, next |-> 0, timer |-> 0, adv |-> {}, addr |-> {}]
 
@@ -166,17 +169,12 @@ NextServedNext == started => /\ m.timer > now
      - the server confirms EVERY hash of it in the handshake (transport.upgrade: e.hs \subseteq x.adv, where
        x.adv is what SerializedCertHashes() puts into the Noise early data).
    The second conjunct needs the PREVIOUS certificate in the advertised list for the whole following
-   period.  A manager started (restarted) inside the period that follows the one the address was learned in
-   has lastConfig = nil and cannot confirm the older hash: the code is modelled as it is, the clause for that
-   case is LearnedSurvivesRestart below (violated by the design; see known_findings.d/C18.json). *)
+   period - also right after a (re)start inside that period, which is why init re-derives it. *)
 InWindow(e) == m.cur = e.per \/ m.cur = e.per + W
 DialVerifies(e, x) == x.cur \in e.hs /\ e.hs \subseteq x.adv
-FreshInFollowing(e) == m.cur = e.per + W /\ m.last = None
 LearnedKeepsVerifying ==
-  started => \A e \in hist : InWindow(e) => /\ DialVerifies(e, sh)     \* the manager that ran continuously
-                                            /\ m.cur \in e.hs
-                                            /\ (FreshInFollowing(e) \/ DialVerifies(e, m))
-(* the statement's clause without the exemption *)
+  started => \A e \in hist : InWindow(e) => DialVerifies(e, sh)     \* the manager that ran continuously
+(* the same for the manager that may have been restarted at any instant since the address was learned *)
 LearnedSurvivesRestart == started => \A e \in hist : InWindow(e) => DialVerifies(e, m)
 (* ... and the requirement ends there: two periods later the address need not (and does not) verify *)
 ReachLearnedExpired == ~(started /\ \E e \in hist : ~InWindow(e) /\ ~DialVerifies(e, sh))
@@ -188,7 +186,7 @@ Deterministic == started => /\ m.cur = sh.cur /\ m.next = sh.next
                             /\ m.next = m.cur + W
 
 (* vacuity probes: expected to be violated *)
-ReachRolled == ~(started /\ m.last # None)
-ReachRestartAfterRoll == ~(started /\ m.last = None /\ sh.last # None)
+ReachRolled == ~(started /\ op.name = "advance" /\ Len(op.fires) >= 1)
+ReachRestartAfterRoll == ~(started /\ op.name = "restart" /\ Len(op.fires) >= 1)
 ReachMultiFire == ~(started /\ op.name = "advance" /\ Len(op.fires) >= 2)
 =============================================================================
